@@ -259,7 +259,7 @@ Qed.
 
 Definition ca_erase (c : counting_attr) : counting_attr :=
   {| ca_counter := 0; ca_default := ca_default c; ca_vals := ca_vals c; ca_convs := ca_convs c;
-     ca_hook := ca_hook c; ca_kw := ca_kw c; ca_init := ca_init c; ca_meta := ca_meta c |}.
+     ca_cann := ca_cann c; ca_hook := ca_hook c; ca_kw := ca_kw c; ca_init := ca_init c; ca_meta := ca_meta c |}.
 Definition ca_sim (a b : counting_attr) : Prop := ca_erase a = ca_erase b.
 
 Definition leb_agree (p q : Z * Z) : Prop := (fst p <=? fst q)%Z = (snd p <=? snd q)%Z.
@@ -354,11 +354,15 @@ Proof. intros [H H']. destruct a; cbn; try congruence. now rewrite H'. Qed.
 Lemma objs_sim_env w1 w2 : objs_sim w1 w2 -> env_eq w1 w2.
 Proof. intros (_&_&H&_&_&H'). split; assumption. Qed.
 
+Lemma converter_ann_sim w1 w2 a : env_eq w1 w2 -> converter_ann w1 a = converter_ann w2 a.
+Proof. intros [H H']. destruct a; cbn; try reflexivity; [now rewrite H | now rewrite H']. Qed.
+
 Lemma attrib_sim w1 w2 a : env_eq w1 w2 ->
   ca_sim (snd (attrib w1 a)) (snd (attrib w2 a)).
 Proof.
   intros H. unfold attrib, ca_sim, ca_erase; cbn.
   rewrite !(resolve_seq_sim w1 w2) by assumption.
+  rewrite (converter_ann_sim w1 w2) by assumption.
   replace (resolve_hook w1 (aa_h a)) with (resolve_hook w2 (aa_h a)); [reflexivity|].
   destruct (aa_h a); cbn; try reflexivity. now rewrite (resolve_seq_sim w1 w2).
 Qed.
@@ -441,18 +445,18 @@ Proof.
   destruct v1, v2; try contradiction; [eapply cpair_sim; eauto | exact I].
 Qed.
 
-Lemma from_ca_sim mc w1 w2 n a b :
+Lemma from_ca_sim mc w1 w2 tys n a b :
   (forall m, mc w1 m = mc w2 m) -> ca_sim a b ->
-  from_counting_attr mc w1 n a = from_counting_attr mc w2 n b.
+  from_counting_attr mc w1 tys n a = from_counting_attr mc w2 tys n b.
 Proof.
-  intros Hmc H. unfold ca_sim, ca_erase in H. injection H as H1 H2 H3 H4 H5 H6 H7.
+  intros Hmc H. unfold ca_sim, ca_erase in H. injection H as H1 H2 H3 H4 H5 H6 H7 H8.
   unfold from_counting_attr. rewrite Hmc. congruence.
 Qed.
 
-Lemma map_from_ca_sim mc w1 w2 l1 l2 :
+Lemma map_from_ca_sim mc w1 w2 tys l1 l2 :
   (forall m, mc w1 m = mc w2 m) -> Forall2 na_sim l1 l2 ->
-  map (fun e => from_counting_attr mc w1 (fst e) (snd e)) l1 =
-  map (fun e => from_counting_attr mc w2 (fst e) (snd e)) l2.
+  map (fun e => from_counting_attr mc w1 tys (fst e) (snd e)) l1 =
+  map (fun e => from_counting_attr mc w2 tys (fst e) (snd e)) l2.
 Proof.
   intros Hmc. induction 1 as [|e1 e2 l1 l2 [Hn Hs] Hl IH]; cbn; [reflexivity|].
   rewrite IH, Hn. f_equal. apply from_ca_sim; assumption.
@@ -508,7 +512,7 @@ Proof. intros H. induction 1; constructor; auto. Qed.
 
 Definition co_rel K c1 c2 (cls1 cls2 : class_obj) : Prop :=
   Forall2 (cd_rel K c1 c2) (co_cd cls1) (co_cd cls2) /\ co_anns cls1 = co_anns cls2 /\
-  co_f cls1 = co_f cls2.
+  co_tys cls1 = co_tys cls2 /\ co_f cls1 = co_f cls2.
 
 Section TransformRel.
   Variables (K : list (Z * Z)) (c1 c2 : Z).
@@ -522,14 +526,14 @@ Section TransformRel.
     co_rel K c1 c2 cls1 cls2 ->
     snd (transform_attrs mc w1 these aa kw cls1) = snd (transform_attrs mc w2 these aa kw cls2).
   Proof.
-    intros Ho Hmc (Hcd & Hann & Hf).
-    unfold transform_attrs. unfold co_base. rewrite Hf, Hann.
+    intros Ho Hmc (Hcd & Hann & Htys & Hf).
+    unfold transform_attrs. unfold co_base. rewrite Hf, Hann, Htys.
     destruct Ho as (Hdecos & Hdicts & Hlists & Hmetas & Hcas & Hconvs).
     assert (Hd : forall t, deref_these w1 t = deref_these w2 t).
     { intros [id|d]; cbn; congruence. }
     destruct these as [t|].
     - rewrite Hd. destruct (has_fn (deref_these w2 t)); [reflexivity|].
-      cbv zeta. rewrite (map_from_ca_sim mc w1 w2 (these_items w1 (deref_these w2 t)) (these_items w2 (deref_these w2 t)));
+      cbv zeta. rewrite (map_from_ca_sim mc w1 w2 (co_tys cls2) (these_items w1 (deref_these w2 t)) (these_items w2 (deref_these w2 t)));
         [| apply Hmc; assumption | apply these_items_sim; assumption].
       destruct kw; match goal with |- context[order_ok ?x ?y] => destruct (order_ok x y) end; reflexivity.
     - destruct aa.
@@ -541,11 +545,11 @@ Section TransformRel.
         rewrite (Forall2_map_fst (na_pair K c1 c2) (cas_of_cd (co_cd cls1)) (cas_of_cd (co_cd cls2)));
           [| intros x y [H _]; exact H | apply cas_of_cd_rel; assumption].
         destruct (filter _ _); [|reflexivity]. cbv zeta.
-        rewrite (map_from_ca_sim mc w1' w2' l1 l2); [| | exact Hw].
+        rewrite (map_from_ca_sim mc w1' w2' (co_tys cls2) l1 l2); [| | exact Hw].
         { destruct kw; match goal with |- context[order_ok ?x ?y] => destruct (order_ok x y) end; reflexivity. }
         apply Hmc. destruct F1 as [(_&_&_&_&Q1&_) _], F2 as [(_&_&_&_&Q2&_) _]. congruence.
       + cbv zeta.
-        rewrite (map_from_ca_sim mc w1 w2 (sorted_by_counter (cas_of_cd (co_cd cls1)))
+        rewrite (map_from_ca_sim mc w1 w2 (co_tys cls2) (sorted_by_counter (cas_of_cd (co_cd cls1)))
                    (sorted_by_counter (cas_of_cd (co_cd cls2)))); [| apply Hmc; assumption |].
         { destruct kw; match goal with |- context[order_ok ?x ?y] => destruct (order_ok x y) end; reflexivity. }
         apply Forall2_impl with (R := na_pair K c1 c2).
@@ -577,7 +581,7 @@ Section WrapRel.
     intros Ho Hmc Hrel.
     pose proof (transform_rel K c1 c2 Hiso Hc1 Hc2 HK mc w1 w2 (ac_these c) (ac_auto_attribs c)
                   (ac_kw_only c) cls1 cls2 Ho Hmc Hrel) as HT.
-    destruct Hrel as (_ & _ & Hf).
+    destruct Hrel as (_ & _ & _ & Hf).
     unfold attrs_wrap_gen, co_hash, co_eq, co_setattr, co_init, co_pre, co_post, co_base.
     rewrite Hf.
     destruct (transform_attrs mc w1 _ _ _ cls1) as [w1' tr1].
@@ -613,7 +617,7 @@ Section WrapRel.
     snd (define_wrap w1 d cls1) = snd (define_wrap w2 d cls2).
   Proof.
     intros Ho Hrel. unfold define_wrap, define_wrap_gen. cbv zeta.
-    assert (Hb : co_base cls1 = co_base cls2) by (unfold co_base; now rewrite (proj2 (proj2 Hrel))).
+    assert (Hb : co_base cls1 = co_base cls2) by (unfold co_base; now rewrite (proj2 (proj2 (proj2 Hrel)))).
     rewrite Hb.
     destruct (_ && _); [reflexivity|].
     destruct (dc_auto_attribs d) as [aa|].
@@ -771,15 +775,15 @@ Qed.
 
 Lemma ca_add_validator_sim a b s : ca_sim a b -> ca_sim (ca_add_validator a s) (ca_add_validator b s).
 Proof.
-  unfold ca_sim, ca_erase, ca_add_validator; cbn. intros H. injection H as H1 H2 H3 H4 H5 H6 H7.
+  unfold ca_sim, ca_erase, ca_add_validator; cbn. intros H. injection H as H1 H2 H3 H4 H5 H6 H7 H8.
   congruence.
 Qed.
 
 (** What the caller does with its own objects keeps the two worlds related. *)
-Lemma sim_nondef w1 w2 o : is_def o = false -> sim w1 w2 ->
+Lemma sim_nondef w1 w2 o : is_def o = false -> is_cop o = false -> sim w1 w2 ->
   sim (step w1 o) (step w2 o) /\ w_defs (step w1 o) = w_defs w1 /\ w_defs (step w2 o) = w_defs w2.
 Proof.
-  intros Hd [Ho Hord [N1 B1] [N2 B2]].
+  intros Hd Hcop [Ho Hord [N1 B1] [N2 B2]].
   pose proof Ho as (O1&O2&O3&O4&O5&O6x).
   destruct o; try discriminate; cbn.
   - (* OAttrib *)
@@ -994,8 +998,8 @@ Definition fattr_noalias (a : fattr) : Prop :=
 Definition outcome_noalias (o : cls_outcome) : Prop :=
   match o with Raised _ => True | Built r => Forall fattr_noalias (r_fields r) end.
 
-Lemma noalias_from w1 l :
-  Forall fattr_noalias (map (fun e => from_counting_attr meta_copy w1 (fst e) (snd e)) l).
+Lemma noalias_from w1 tys l :
+  Forall fattr_noalias (map (fun e => from_counting_attr meta_copy w1 tys (fst e) (snd e)) l).
 Proof.
   apply Forall_forall. intros a Ha. apply in_map_iff in Ha as (e & <- & _).
   unfold fattr_noalias, from_counting_attr; cbn. destruct (ca_meta (snd e)); exact I.
